@@ -38,6 +38,9 @@ type SchedArgs struct {
 	AuxCreator string `json:"auxCreator,omitempty"`
 	AuxPauseAt int64  `json:"auxPauseAt,omitempty"`
 	AuxWaitMs  int    `json:"auxWaitMs,omitempty"`
+	// AuxHoldAll: every goroutine created by AuxCreator is held at its first lock operation while X and Y run (no X
+	// pause point is used); they are released before Post
+	AuxHoldAll bool `json:"auxHoldAll,omitempty"`
 }
 
 type stepRes struct {
@@ -133,7 +136,7 @@ func schedRun(raw json.RawMessage) (interface{}, error) {
 	started := make(chan *vsync.Controller, 1)
 	go func() {
 		c := vsync.NewController(vsync.GID(), a.PauseAt)
-		c.AuxCreator, c.AuxPauseAt = a.AuxCreator, a.AuxPauseAt
+		c.AuxCreator, c.AuxPauseAt, c.AuxHoldAll = a.AuxCreator, a.AuxPauseAt, a.AuxHoldAll
 		vsync.Attach(c)
 		started <- c
 		xres = runSteps(a.X)
@@ -146,6 +149,11 @@ func schedRun(raw json.RawMessage) (interface{}, error) {
 	// the k-th lock operation only after the party itself has returned)
 	defer resume()
 	out := map[string]interface{}{}
+	var auxOnce0 sync.Once
+	resumeAux0 := func() { auxOnce0.Do(func() { close(c.AuxResume) }) }
+	if a.AuxHoldAll {
+		defer resumeAux0()
+	}
 	paused := false
 	select {
 	case <-c.Paused:
@@ -153,9 +161,8 @@ func schedRun(raw json.RawMessage) (interface{}, error) {
 	case <-xdone:
 	}
 	yBlocked, yStalled := false, false
-	if paused && a.AuxCreator != "" {
-		var auxOnce sync.Once
-		resumeAux := func() { auxOnce.Do(func() { close(c.AuxResume) }) }
+	if paused && a.AuxCreator != "" && !a.AuxHoldAll {
+		resumeAux := resumeAux0
 		defer resumeAux()
 		auxPaused := false
 		select {
@@ -244,6 +251,10 @@ func schedRun(raw json.RawMessage) (interface{}, error) {
 	} else {
 		// the pause point does not exist: Y runs after X
 		yres = runSteps(a.Y)
+		if a.AuxHoldAll {
+			out["auxHeld"] = c.AuxHeld()
+			resumeAux0()
+		}
 	}
 	vsync.Detach()
 	out["pre"] = preres
